@@ -18,7 +18,7 @@ func init() {
 			"(R1.2) currentBatch moves only under batchPartition (= C11 R11.3); (R1.3) the batchPartition the Rollout controller writes is exactly currentStepIndex-1 (argument provenance through runBatchRelease into every createBatchRelease implementation); " +
 			"(R1.4) CalculateBatchReplicas and its twin clamp their result to [0, replicas] on every return, and every CalculateBatchContext derives the desired knob from a clamped source; (R1.5) step / batch replica percentages are scaled with roundUp=true at every call site (only maxUnavailable rounds down); " +
 			"(R1.6) the executor never acts on a recomputed-but-unpersisted currentBatch (= C06 R6.2).",
-		NotDecided: "the numeric clauses: that ParseIntegerAsPercentageIfPossible restores to within 1%, that percentage steps track a scaled workload, any closed-loop statement about what the workload controller then does.",
+		NotDecided:  "the numeric clauses: that ParseIntegerAsPercentageIfPossible restores to within 1%, that percentage steps track a scaled workload, any closed-loop statement about what the workload controller then does.",
 		Assumptions: []string{"the direction table of the knobs (stable-count vs updated-count) is frozen in the rule and taken from the API meaning of partition / replicas / maxSurge"},
 	})
 }
